@@ -6,6 +6,7 @@ import (
 	"fmt"
 	"os"
 	"path/filepath"
+	"sort"
 	"time"
 
 	"github.com/superfly/litefs"
@@ -63,8 +64,8 @@ type scen struct {
 	Cycles     int   `json:"cycles"`
 	PageSizes  []int `json:"page_sizes"` // page size used in each life of the database
 	WAL        bool  `json:"wal"`
-	LagReplica bool  `json:"lag_replica"` // r2 is stopped during the drop and restarted afterwards
-	LateJoin   bool  `json:"late_join"`   // r3 joins after the last drop
+	LagReplica bool  `json:"lag_replica"`     // r2 is stopped during the drop and restarted afterwards
+	LateJoin   bool  `json:"late_join"`       // r3 joins after the last drop
 	RestartP   bool  `json:"restart_primary"` // the primary restarts between the last write and the drop (Open leaves a shared-memory file behind, in either journal mode)
 }
 
@@ -280,6 +281,9 @@ func Run(c *common.Ctx) error {
 			scens = append(scens, scen{Cycles: 1 + r.Intn(3), PageSizes: pss, WAL: r.Bool(), LagReplica: r.Bool(), LateJoin: r.Bool(), RestartP: r.Chance(30)})
 		}
 	}
+	if err := dropDuringCommit(c, c.Rng.Fork()); err != nil {
+		return err
+	}
 	for _, ps := range [][2]int{{4096, 1024}, {512, 4096}, {1024, 1024}} {
 		if err := snapshotAcrossDrop(c, c.Rng.Fork(), ps[0], ps[1]); err != nil {
 			return err
@@ -369,6 +373,83 @@ func snapshotAcrossDrop(c *common.Ctx, r *common.Rand, ps1, ps2 int) error {
 		c.Violate("C15:snapshot-across-drop:restart-after", fmt.Sprintf("the replica cannot restart after the snapshot: %v", err), rep)
 	} else if got := dbPos(r2.Store); got.TXID != pp.TXID || got.Chk != pp.Chk {
 		c.Violate("C15:snapshot-across-drop:restart-position", fmt.Sprintf("after a restart the replica is at %v, want (%d,%016x)", got, pp.TXID, pp.Chk), rep)
+	}
+	return nil
+}
+
+// dropDuringCommit: the database file is deleted while another connection commits. The drop is a transaction like any
+// other: the two are serialised, the log is one chain and ends at the position whichever came first.
+func dropDuringCommit(c *common.Ctx, r *common.Rand) error {
+	dir, err := os.MkdirTemp(c.OutDir, "c15d-")
+	if err != nil {
+		return err
+	}
+	defer os.RemoveAll(dir)
+	ros := &lfs.RecOS{}
+	n, err := lfs.Open(dir, true, func(s *litefs.Store) { s.OS = ros })
+	if err != nil {
+		return err
+	}
+	defer n.Close()
+	h := hist.NewOn(c, r.Fork(), hist.Config{PageSize: 512}, n.Store, n.Exits, "db", &lfs.Image{PageSize: 512}, 0, false)
+	if !commitN(h, 2) {
+		return fmt.Errorf("setup commits failed")
+	}
+	db := n.Store.DB("db")
+	slipped := 0
+	hooked := false
+	ros.After = func(call lfs.OSCall) {
+		if call.Op != "DROP:LTX" || hooked {
+			return
+		}
+		hooked = true
+		// the drop has just renamed its (tombstone) file into the log: another connection commits
+		old := lfs.BusyTimeout
+		lfs.BusyTimeout = 30 * time.Millisecond
+		defer func() { lfs.BusyTimeout = old }()
+		im, _ := lfs.ReadImage(filepath.Join(n.Dir, "dbs", "db"))
+		h2 := hist.NewOn(c, r.Fork(), hist.Config{PageSize: 512}, n.Store, n.Exits, "db", im, uint64(db.Pos().TXID), false)
+		for tries := 0; tries < 100; tries++ {
+			st := h2.GenStep()
+			if st.Op != "rtx" {
+				continue
+			}
+			st.Outcome, st.ToWAL, st.Spill = 0, false, 0
+			if ob := h2.Exec(st); ob.Captured && ob.Err == "" && ob.Panic == "" {
+				slipped++
+			}
+			break
+		}
+	}
+	derr := db.Drop(context.Background())
+	ros.After = nil
+	c.Evaluations++
+	c.Distinct("drop-during-commit")
+	rep := map[string]any{"kind": "drop-during-commit", "drop_error": fmt.Sprint(derr), "commits_inside_the_drop": slipped}
+	pos := db.Pos()
+	infos, _ := lfs.ListLTX(filepath.Join(n.Dir, "dbs", "db"))
+	var last *lfs.LTXInfo
+	for i := range infos {
+		if last == nil || infos[i].Max >= last.Max {
+			last = &infos[i]
+		}
+	}
+	switch {
+	case len(n.Exits()) > 0:
+		c.Violate("C15:drop-during-commit:exit", fmt.Sprintf("the node called Exit(%v)", n.Exits()), rep)
+	case last == nil || !last.Valid:
+		c.Violate("C15:drop-during-commit:log", "no valid newest transaction file after the drop", rep)
+	case last.Max != uint64(pos.TXID) || last.Post != uint64(pos.PostApplyChecksum):
+		c.Violate("C15:drop-during-commit:position", fmt.Sprintf("a connection committed %d transaction(s) between the drop's rename and its end; afterwards the log ends at (%d,%016x) and the position is (%d,%016x)", slipped, last.Max, last.Post, uint64(pos.TXID), uint64(pos.PostApplyChecksum)), rep)
+	default:
+		// the chain: every file continues the one before
+		sort.SliceStable(infos, func(i, j int) bool { return infos[i].Min < infos[j].Min })
+		for i := 1; i < len(infos); i++ {
+			if infos[i].Min != infos[i-1].Max+1 || infos[i].Pre != infos[i-1].Post {
+				c.Violate("C15:drop-during-commit:chain", fmt.Sprintf("the log is not one chain: %s does not continue %s", infos[i].Name, infos[i-1].Name), rep)
+				break
+			}
+		}
 	}
 	return nil
 }
